@@ -36,7 +36,7 @@ COMPONENTS = {
 ASSUMPTIONS = ["the restarted emulator is constructed with the same constructor arguments and ROM image",
                "diagnostic counters, creation time, bit-watch tables and call-depth bookkeeping are not compared"]
 PROBES = ["crash_halted", "crash_off", "crash_in_handler", "crash_pending_masked", "crash_key_held", "crash_key_latched",
-          "crash_timer_within_2", "crash_lcd_written", "crash_fifo_nonempty", "crash_before_wait",
+          "crash_timer_within_2", "crash_lcd_written", "crash_after_lcd_read", "crash_fifo_nonempty", "crash_before_wait",
           "delivery_after_restore", "cross_py_to_rs", "cross_rs_to_py"]
 
 ALLOW = {"timers": True, "keys": True, "onk": True, "imr_writes": True, "isr_writes": True, "wait": True,
@@ -140,6 +140,8 @@ def _interesting(scn: Dict[str, Any], obs: List[list]) -> Dict[str, List[int]]:
         if img.get(o[O_PC]) == 0xEF and pw == 0:
             add("crash_before_wait", k)
         tag = (scn["prog"]["ins"].get(str(obs[k - 1][O_PC])) or [0, ""])[1]
+        if tag == "LCD_R":
+            add("crash_after_lcd_read", k)      # the controller's column moved (or its busy flag fell) without a write
         if tag == "LCD_W":
             lcd_seen = True
         if lcd_seen:
